@@ -55,7 +55,13 @@ class VDefer(VRaw):
     local is read, so that `insert_sequence(<call>)` stays recognisable; builders are free of side effects"""
 
 
-STATIC = (VSeq, VOpF, VOp, VList, VFn)
+class VCond:
+    """a static value that depends on a run-time test: `A if c else B` with c side-effect-free"""
+    def __init__(self, test, a, b):
+        self.test, self.a, self.b = test, a, b
+
+
+STATIC = (VSeq, VOpF, VOp, VList, VFn, VCond)
 SEQ_PREFIX = "hrevolve_sequences/"
 
 
@@ -102,10 +108,12 @@ class PE:
         if isinstance(v, VList):
             elts = [self.resid(i) for i in v.items]
             return ast.Tuple(elts, ast.Load()) if v.kind == "tuple" else ast.List(elts, ast.Load())
+        if isinstance(v, VCond):
+            return ast.IfExp(copy.deepcopy(v.test), self.resid(v.a), self.resid(v.b))
         raise Abandon("a function value is used as data")
 
     def has_static(self, v):
-        if isinstance(v, (VSeq, VOpF, VOp, VFn)):
+        if isinstance(v, (VSeq, VOpF, VOp, VFn, VCond)):
             return True
         if isinstance(v, VList):
             return any(self.has_static(i) for i in v.items)
@@ -143,6 +151,18 @@ class PE:
                 raise Abandon("lambda")
         return S().visit(copy.deepcopy(e))
 
+    def concat(self, a, b):
+        """list concatenation of static values (distributed over conditional values), or None"""
+        if isinstance(a, VList) and isinstance(b, VList):
+            return VList(a.items + b.items, a.kind)
+        if isinstance(a, VCond) and isinstance(b, (VList, VCond)):
+            x, y = self.concat(a.a, b), self.concat(a.b, b)
+            return None if x is None or y is None else VCond(a.test, x, y)
+        if isinstance(b, VCond) and isinstance(a, VList):
+            x, y = self.concat(a, b.a), self.concat(a, b.b)
+            return None if x is None or y is None else VCond(b.test, x, y)
+        return None
+
     def lookup_fn(self, name, env):
         if name in env:
             v = env[name]
@@ -173,10 +193,21 @@ class PE:
                 else:
                     items.append(self.ev(x, env, want_static))
             return VList(items, "tuple" if isinstance(e, ast.Tuple) else "list")
+        if isinstance(e, ast.IfExp):
+            t = self.subst(e.test, env)
+            if isinstance(t, ast.Constant):
+                return self.ev(e.body if t.value else e.orelse, env, want_static)
+            if isinstance(t, ast.UnaryOp) and isinstance(t.op, ast.Not) and isinstance(t.operand, ast.Constant):
+                return self.ev(e.orelse if t.operand.value else e.body, env, want_static)
+            a, b = self.ev(e.body, env, want_static), self.ev(e.orelse, env, want_static)
+            if (isinstance(a, STATIC) or isinstance(b, STATIC)) and _pure(t):
+                return VCond(t, a, b)
+            return VRaw(ast.IfExp(t, self.resid(a), self.resid(b)))
         if isinstance(e, ast.BinOp) and isinstance(e.op, ast.Add):
             a, b = self.ev(e.left, env, want_static), self.ev(e.right, env, want_static)
-            if isinstance(a, VList) and isinstance(b, VList):
-                return VList(a.items + b.items, a.kind)
+            r = self.concat(a, b)
+            if r is not None:
+                return r
             if isinstance(a, VList) or isinstance(b, VList):
                 if self.has_static(a) or self.has_static(b):
                     raise Abandon("list of operations concatenated with a run-time value")
@@ -277,6 +308,22 @@ class PE:
                     if isinstance(v, VRaw) and not _pure(v.expr):
                         raise Abandon("helper with a run-time local")
                     new[s.targets[0].id] = v
+                elif isinstance(s, ast.AugAssign) and isinstance(s.op, ast.Add) and isinstance(s.target, ast.Name) \
+                        and isinstance(new.get(s.target.id), (VList, VCond)):
+                    r = self.concat(new[s.target.id], self.ev(s.value, new, True))
+                    if r is None:
+                        raise Abandon("list extended by a run-time value")
+                    new[s.target.id] = r
+                elif isinstance(s, ast.Expr) and isinstance(s.value, ast.Call) and isinstance(s.value.func, ast.Attribute) \
+                        and isinstance(s.value.func.value, ast.Name) and isinstance(new.get(s.value.func.value.id), (VList, VCond)) \
+                        and s.value.func.attr in ("append", "extend") and len(s.value.args) == 1 and not s.value.keywords:
+                    nm = s.value.func.value.id
+                    arg = self.ev(s.value.args[0], new, True)
+                    add = VList([arg]) if s.value.func.attr == "append" else arg
+                    r = self.concat(new[nm], add)
+                    if r is None:
+                        raise Abandon("list extended by a run-time value")
+                    new[nm] = r
                 else:
                     raise Abandon("helper value needs statements")
             if not body or not isinstance(body[-1], ast.Return) or body[-1].value is None:
@@ -289,6 +336,8 @@ class PE:
 
     # ------------------------------------------------------------------ statements
     def insert_stmt(self, v, site):
+        if isinstance(v, VCond):
+            return self.fresh_if(copy.deepcopy(v.test), [self.insert_stmt(v.a, site)], [self.insert_stmt(v.b, site)], site)
         if not isinstance(v, VOp):
             raise Abandon("insert of something that is not an operation")
         call = ast.Call(ast.Attribute(ast.Name(self.seqname, ast.Load()), "insert", ast.Load()), [self.resid(v)], [])
@@ -403,6 +452,29 @@ class PE:
                     inner = self.ev(s.iter.args[0], env, True)
                     if isinstance(inner, VList):
                         it = VList(list(reversed(inner.items)), inner.kind)
+                if isinstance(it, VCond):
+                    # the list iterated depends on a run-time test: one unrolled loop per branch
+                    if s.orelse or any(isinstance(x, (ast.Break, ast.Continue)) for b in s.body for x in ast.walk(b)) \
+                            or self.has_return(s.body):
+                        raise Abandon("break/continue/else/return in an unrolled loop")
+
+                    def unroll(v, env_):
+                        if isinstance(v, VCond):
+                            e1, e2 = dict(env_), dict(env_)
+                            return [self.fresh_if(copy.deepcopy(v.test), unroll(v.a, e1), unroll(v.b, e2), s)]
+                        if not isinstance(v, VList):
+                            raise Abandon("conditional iterable that is not a list")
+                        res_ = []
+                        for item in v.items:
+                            self.bind_target(s.target, item, env_, frame, res_, s)
+                            r_, t_ = self.run(s.body, env_, frame)
+                            res_ += r_
+                        return res_
+                    out += unroll(it, dict(env))
+                    for x in ast.walk(s.target):
+                        if isinstance(x, ast.Name):
+                            env.pop(x.id, None)
+                    continue
                 if isinstance(it, VList) and (self.has_static(it) or len(it.items) <= 12):
                     if s.orelse or any(isinstance(x, (ast.Break, ast.Continue)) for b in s.body for x in ast.walk(b)):
                         raise Abandon("break/continue/else in an unrolled loop")
@@ -514,6 +586,9 @@ class PE:
             return a.fdef is b.fdef
         if isinstance(a, VOp):
             return ast.dump(a.typ) == ast.dump(b.typ) and ast.dump(a.idx) == ast.dump(b.idx)
+        if isinstance(a, VCond):
+            return ast.dump(a.test) == ast.dump(b.test) and self.same_static(a.a, b.a) and self.same_static(a.b, b.b) \
+                if isinstance(a.a, STATIC) and isinstance(a.b, STATIC) else False
         if isinstance(a, VList):
             return len(a.items) == len(b.items) and all(
                 (isinstance(x, VRaw) and isinstance(y, VRaw) and ast.dump(x.expr) == ast.dump(y.expr)) or
